@@ -777,7 +777,12 @@ func (c *Ctx) splitGoal(env *Env, e Expr) []conj {
 				return
 			}
 		case *ECall:
-			if p, ok := c.W.pures[x.Fun]; ok && x.Pkg == "" && p.Ret == nil && depth < 4 && len(p.Params) == len(x.Args) {
+			if p, ok := c.W.pures[x.Fun]; ok && x.Pkg == "" && x.Recv == nil && p.Ret == nil && depth < 4 && len(p.Params) == len(x.Args) &&
+				(!p.Opaque || (c.top != nil && c.top.Reveal[p.Name])) {
+				if p.Opaque {
+					// make sure the defining equation of this instance is present
+					env.eval(x)
+				}
 				vars := map[string]Val{}
 				for i, b := range p.Params {
 					rt := c.resolveType(env.pkg, b.T)
@@ -830,6 +835,31 @@ func (l Loc) refIn(r string) string {
 // evalLoc resolves a modifies designator in the given environment.
 func (c *Ctx) evalLoc(env *Env, e Expr) []Loc {
 	switch x := e.(type) {
+	case *ECall:
+		if x.Fun == "chans" && len(x.Args) == 1 {
+			// every channel stored as a value of the given map
+			mv := env.eval(x.Args[0])
+			mi := c.mapInfo(mv.T)
+			ch, ok := mi.V.Underlying().(*types.Chan)
+			if !ok {
+				c.fail("modifies: chans() needs a map of channels")
+			}
+			dom := tSel(c.mapDom(env.st, mi), mv.L[0])
+			vals, _, _ := c.mapValComp(env.st, mi, 0)
+			vrow := tSel(vals, mv.L[0])
+			in := func(r string) string {
+				return fmt.Sprintf("(exists ((kk %s)) (and (select %s kk) (= (select %s kk) %s)))", mi.ksort, dom, vrow, r)
+			}
+			var keys []Leaf
+			for _, k := range []string{"CH|head", "CH|tail", "CH|cap"} {
+				keys = append(keys, Leaf{k, bvSort(64), nil})
+			}
+			keys = append(keys, Leaf{"CH|closed", SBool, nil})
+			for _, l := range c.chanBufKeys(ch.Elem()) {
+				keys = append(keys, Leaf{l.Path, arrSort(bvSort(64), l.Sort), nil})
+			}
+			return []Loc{{Kind: "fieldset", Keys: keys, In: in}}
+		}
 	case *EIdent:
 		if g, ok := c.W.ghosts[x.Name]; ok {
 			rt := c.resolveType(env.pkg, g.T)
@@ -1007,10 +1037,15 @@ func (fr *Frame) havocModifies(fc *FuncContract, env *Env, st *State, R string) 
 		c.note("call to %s havocs the whole heap (no modifies clause)", fc.Key())
 		return
 	}
+	// all designators denote locations of the pre-state: resolve them before anything is havocked
+	pre := *env
+	pre.st = st.clone()
+	var locs []Loc
 	for _, m := range fc.Modifies {
-		for _, loc := range c.evalLoc(env, m) {
-			c.havocLoc(st, loc)
-		}
+		locs = append(locs, c.evalLoc(&pre, m)...)
+	}
+	for _, loc := range locs {
+		c.havocLoc(st, loc)
 	}
 }
 
@@ -1218,8 +1253,12 @@ func (c *Ctx) instrWrites(fn *ssa.Function, ins ssa.Instruction, out *WS, stack 
 		}
 	case *ssa.Send:
 		c.wsChan(out)
+		c.wsChanBuf(t.Chan.Type(), out)
 	case *ssa.Select:
 		c.wsChan(out)
+		for _, st := range t.States {
+			c.wsChanBuf(st.Chan.Type(), out)
+		}
 	case *ssa.UnOp:
 		if t.Op.String() == "<-" {
 			c.wsChan(out)
@@ -1256,6 +1295,14 @@ func (c *Ctx) instrWrites(fn *ssa.Function, ins ssa.Instruction, out *WS, stack 
 			return
 		}
 		c.callWrites(fn, t.Common(), out, stack)
+	}
+}
+
+func (c *Ctx) wsChanBuf(T types.Type, out *WS) {
+	if ch, ok := T.Underlying().(*types.Chan); ok {
+		for _, l := range c.chanBufKeys(ch.Elem()) {
+			out.comps[l.Path] = arrSort(SRef, arrSort(bvSort(64), l.Sort))
+		}
 	}
 }
 
@@ -1410,6 +1457,20 @@ func (c *Ctx) specType(e Expr, tenv map[string]types.Type, pkg *types.Package) t
 
 func (c *Ctx) locWrites(e Expr, tenv map[string]types.Type, pkg *types.Package, out *WS) {
 	switch x := e.(type) {
+	case *ECall:
+		if x.Fun == "chans" && len(x.Args) == 1 {
+			c.wsChan(out)
+			if mt := c.specType(x.Args[0], tenv, pkg); mt != nil {
+				if m, ok := mt.Underlying().(*types.Map); ok {
+					if ch, ok := m.Elem().Underlying().(*types.Chan); ok {
+						for _, l := range c.chanBufKeys(ch.Elem()) {
+							out.comps[l.Path] = arrSort(SRef, arrSort(bvSort(64), l.Sort))
+						}
+						return
+					}
+				}
+			}
+		}
 	case *EIdent:
 		if g, ok := c.W.ghosts[x.Name]; ok {
 			rt := c.resolveType(pkg, g.T)
@@ -1616,10 +1677,15 @@ func (fr *Frame) loopEnv(li *loopInfo, st *State, phiVals map[*ssa.Phi]Val, R st
 			}
 		}
 	}
-	for r, cell := range fr.rcells {
-		if v, ok := st.cells[cell]; ok {
-			_ = r
-			vars["visited"] = v
+	for _, ins := range li.header.Instrs {
+		if nx, ok := ins.(*ssa.Next); ok {
+			if r, ok := nx.Iter.(*ssa.Range); ok {
+				if cell, ok := fr.rcells[r]; ok {
+					if v, ok := st.cells[cell]; ok {
+						vars["visited"] = v
+					}
+				}
+			}
 		}
 	}
 	var pkg *types.Package
@@ -1738,6 +1804,17 @@ func (fr *Frame) autoInvariants(li *loopInfo, phiVals map[*ssa.Phi]Val) []string
 
 // frameFormula: outside the allowed locations, objects allocated in `alloc` agree between v1 and v0.
 func (c *Ctx) frameFormula(key, alloc string, locs []Loc, v1, v0 string) string {
+	return c.frameBody(key, alloc, locs, v1, v0, "r", "i", true)
+}
+
+// frameGoal is the same statement with the quantified variables replaced by fresh constants (for use as a goal).
+func (c *Ctx) frameGoal(key, alloc string, locs []Loc, v1, v0 string) string {
+	r := c.fresh("sk_r", SRef)
+	i := c.fresh("sk_i", bvSort(64))
+	return c.frameBody(key, alloc, locs, v1, v0, r, i, false)
+}
+
+func (c *Ctx) frameBody(key, alloc string, locs []Loc, v1, v0, r, i string, quant bool) string {
 	switch {
 	case strings.HasPrefix(key, "G|") || strings.HasPrefix(key, "GL|"):
 		if len(locs) > 0 {
@@ -1748,16 +1825,26 @@ func (c *Ctx) frameFormula(key, alloc string, locs []Loc, v1, v0 string) string 
 		var exc []string
 		for _, l := range locs {
 			if l.Kind == "elems" {
-				exc = append(exc, tAnd(tEq("r", l.Ref), app("bvule", l.Lo, "i"), app("bvult", "i", l.Hi)))
+				exc = append(exc, tAnd(tEq(r, l.Ref), app("bvule", l.Lo, i), app("bvult", i, l.Hi)))
+			} else if l.Kind == "fieldset" || l.Kind == "field" {
+				exc = append(exc, l.refIn(r))
 			}
 		}
-		return fmt.Sprintf("(forall ((r Ref) (i (_ BitVec 64))) (! (=> (and (select %s r) (not %s)) (= (select (select %s r) i) (select (select %s r) i))) :pattern ((select (select %s r) i))))", alloc, tOr(exc...), v1, v0, v1)
+		body := tImp(tAnd(tSel(alloc, r), tNot(tOr(exc...))), tEq(tSel(tSel(v1, r), i), tSel(tSel(v0, r), i)))
+		if !quant {
+			return body
+		}
+		return fmt.Sprintf("(forall ((r Ref) (i (_ BitVec 64))) (! %s :pattern ((select (select %s r) i))))", body, v1)
 	}
 	var exc []string
 	for _, l := range locs {
-		exc = append(exc, l.refIn("r"))
+		exc = append(exc, l.refIn(r))
 	}
-	return fmt.Sprintf("(forall ((r Ref)) (! (=> (and (select %s r) (not %s)) (= (select %s r) (select %s r))) :pattern ((select %s r))))", alloc, tOr(exc...), v1, v0, v1)
+	body := tImp(tAnd(tSel(alloc, r), tNot(tOr(exc...))), tEq(tSel(v1, r), tSel(v0, r)))
+	if !quant {
+		return body
+	}
+	return fmt.Sprintf("(forall ((r Ref)) (! %s :pattern ((select %s r))))", body, v1)
 }
 
 func (fr *Frame) checkInvariants(li *loopInfo, st *State, phiVals map[*ssa.Phi]Val, R string, phase string) {
@@ -1777,7 +1864,7 @@ func (fr *Frame) checkInvariants(li *loopInfo, st *State, phiVals map[*ssa.Phi]V
 			if v1 == v0 {
 				continue
 			}
-			c.oblige("frame", fr.oblName(fmt.Sprintf("loop{%s}.frame{%s}", li.desc, k)), R, stripPattern(c.frameFormula(k, li.headAlloc, li.allowed[k], v1, v0)))
+			c.oblige("frame", fr.oblName(fmt.Sprintf("loop{%s}.frame{%s}", li.desc, k)), R, c.frameGoal(k, li.headAlloc, li.allowed[k], v1, v0))
 		}
 	}
 	if phase == "preserve" {
